@@ -141,6 +141,16 @@ class ProfEnv:
         os.chmod(os.path.join(self.fake, "go"), 0o755)
         self.nopath = os.path.join(self.root, "nopath")
         os.makedirs(self.nopath, exist_ok=True)
+        # a PATH without `go` that is not empty: other disassemblers and near-namesakes of the tool, each of which would
+        # happily print a (foreign) listing of 40 lines and exit 0 - none of them is the tool the profiler is documented
+        # to run, so a run without `go` fails and caches nothing whatever else can be found
+        self.neighbours = os.path.join(self.root, "neighbours")
+        os.makedirs(self.neighbours, exist_ok=True)
+        for nm in ("objdump", "gobjdump", "llvm-objdump", "go-objdump", "go.bak", "golang", "go1.23", "gotool"):
+            with open(os.path.join(self.neighbours, nm), "w") as f:
+                f.write("#!/bin/sh\necho; echo \"$1:     file format elf64-x86-64\"; echo; echo 'Disassembly of section .text:'; echo\n"
+                        "echo '0000000000401000 <main.main>:'\ni=0; while [ $i -lt 40 ]; do echo \"  40100$i:\tmov    $0x$i,%eax\"; echo \"  40101$i:\tsyscall\"; i=$((i+1)); done\nexit 0\n")
+            os.chmod(os.path.join(self.neighbours, nm), 0o755)
         # a `go` that is found on PATH (executable bit set) but cannot be started
         self.unstartable = {}
         for how, content in (("badinterp", b"#!/nonexistent/interpreter\nexit 0\n"), ("noformat", b"\x00\x01not an executable\n"),
@@ -239,7 +249,7 @@ class ProfEnv:
         with self.lock:
             self.executions += 1
         env = dict(os.environ)
-        env["PATH"] = self.nopath if missing else self.fake + ":/usr/bin:/bin"
+        env["PATH"] = (self.neighbours if self.executions % 2 else self.nopath) if missing else self.fake + ":/usr/bin:/bin"
         if unstartable:
             env["PATH"] = self.unstartable[unstartable] + ":" + self.nopath
         if tmpdir:
